@@ -383,6 +383,45 @@ def repeated(rng, tier):
 # FINGERPRINT COLLISIONS: pairs of DIFFERENT transactions of equal length that agree under a cheap fingerprint of
 # their complete serialisation (a cache keyed by such a fingerprint hands the second one the first one's answer)
 # ------------------------------------------------------------------------------------------------
+def one_field_variants(rng, t):
+    """[(field name, t')]: copies of t that differ from it in EXACTLY ONE field (a cache or memo keyed by a strict subset
+    of a transaction's / an input's / an output's fields answers the second with the first one's data)"""
+    ver, ins, outs, wits, lt = t
+    out = []
+
+    def flip(b):
+        if not b:
+            return b"\x51"
+        j = rng.randrange(len(b))
+        return b[:j] + bytes([b[j] ^ (1 << rng.randrange(8))]) + b[j + 1:]
+
+    def other_seq(s):
+        c = [x for x in SEQS + [rng.randbytes(4)] if x != s]
+        return rng.choice(c)
+    out.append(("version", ((ver + 1) % (1 << 32), ins, outs, wits, lt)))
+    out.append(("locktime", (ver, ins, outs, wits, (lt + 1) % (1 << 32))))
+    for k in sorted({0, len(ins) - 1}):
+        i = ins[k]
+        for name, i2 in (("in%d-sequence" % k, (i[0], i[1], i[2], other_seq(i[3]))),
+                         ("in%d-vout" % k, (i[0], (i[1] + 1) % (1 << 32), i[2], i[3])),
+                         ("in%d-txid" % k, (flip(i[0]), i[1], i[2], i[3])),
+                         ("in%d-scriptsig" % k, (i[0], i[1], flip(i[2]), i[3]))):
+            out.append((name, (ver, ins[:k] + [i2] + ins[k + 1:], outs, wits, lt)))
+        if wits is not None:
+            w = list(wits[k])
+            w2 = [flip(w[0])] + w[1:] if w else [b"\x01"]
+            out.append(("in%d-witness" % k, (ver, ins, outs, wits[:k] + [w2] + wits[k + 1:], lt)))
+    for k in sorted({0, len(outs) - 1}):
+        o = outs[k]
+        out.append(("out%d-value" % k, (ver, ins, outs[:k] + [((o[0] + 1) % (1 << 64), o[1])] + outs[k + 1:], wits, lt)))
+        out.append(("out%d-script" % k, (ver, ins, outs[:k] + [(o[0], flip(o[1]))] + outs[k + 1:], wits, lt)))
+    if len(ins) > 1:
+        out.append(("ins-swapped", (ver, [ins[1], ins[0]] + ins[2:], outs, ([wits[1], wits[0]] + wits[2:]) if wits is not None else None, lt)))
+    if len(outs) > 1:
+        out.append(("outs-swapped", (ver, ins, [outs[1], outs[0]] + outs[2:], wits, lt)))
+    return out
+
+
 def _fingerprints():
     import zlib
     return {"crc32": zlib.crc32, "adler32": zlib.adler32,
